@@ -6,7 +6,7 @@
 From Coq Require Import Reals Arith List QArith Qcanon Lra Lia String.
 From Coquelicot Require Import Coquelicot.
 From QV.Core Require Import OF Sums Mat QcOF ROF.
-From QV.Model Require Import C12_Loss C12_Mixed C12_Dispatch C12_Skeleton.
+From QV.Model Require Import C12_Loss C12_Mixed C12_Dispatch C12_Skeleton C12_Slices.
 From QV.Proofs Require Import C12_Loss C12_Config C12_RelEntropy C12_RelEntropyR C12_CovPD C12_PDInverse C12_Mixed C12_Dispatch C12_Main.
 Import ListNotations.
 
@@ -70,6 +70,29 @@ Theorem C12_se_mixed_outcome_counts : forall (R : CR) nv (Bs : list (@sblock R))
               (mv nv (fun a c => cadd R (mix_hess_half nv Bs v a c) (mix_hess_half nv Bs v a c)) h al)).
 Proof. exact main_se_mixed_outcome_counts. Qed.
 Print Assumptions C12_se_mixed_outcome_counts.
+
+(* the two models agree: for a stacked model in which every schedule has m outcomes, cut into blocks of rows
+   [j*m, j*m + m), the sum over the blocks is the flat squared-error model all other theorems are about *)
+Theorem C12_mixed_model_consistent_with_equal_counts : forall (R : CR) ns m nv (W : @wts R) (A : @mat R) (b q v : @vec R),
+  mix_value nv (equal_blocks ns m W A b q) v = se_value ns m nv W A b q v.
+Proof. exact @mix_equal_blocks. Qed.
+Print Assumptions C12_mixed_model_consistent_with_equal_counts.
+
+(* how the generic classes cut the stacked forward model: for ANY list of outcome counts, schedule j owns the rows
+   [offset j, offset j + outcomes j), consecutive ranges touch, the first starts at 0 and the last ends at the total number of
+   rows; a closure built for the slice [lo, hi) with (size = hi - lo, index = 0) reads exactly the rows of that slice
+   (coq/gen/C12_Equiv.v re-proves on every run that the index arithmetic REGENERATED from the source is this) *)
+Theorem C12_schedule_slices_partition_the_rows : forall sizes : list nat,
+  List.length (slices sizes) = List.length sizes /\
+  (forall j, (j < List.length sizes)%nat ->
+     nth j (slices sizes) (0, 0)%nat = (offset sizes j, offset sizes j + nth j sizes 0)%nat /\
+     snd (nth j (slices sizes) (0, 0)%nat) = offset sizes (S j)) /\
+  offset sizes 0 = 0%nat /\ offset sizes (List.length sizes) = total sizes /\
+  (forall lo hi, (lo <= hi)%nat ->
+     (lo + fst (helper_rows (hi - lo) 0) = lo /\ lo + snd (helper_rows (hi - lo) 0) = hi /\
+      forall i, (i < hi - lo)%nat -> lo + helper_grad_row (hi - lo) 0 i = lo + i)%nat).
+Proof. exact main_schedule_slices_partition_the_rows. Qed.
+Print Assumptions C12_schedule_slices_partition_the_rows.
 
 (* ================= fast path = generic path ================= *)
 
@@ -427,6 +450,9 @@ Example C12_ex_mixed_blocks : @blocks_sym Qc_OF
   [ {| b_m := 3; b_A := wA; b_b := wz; b_q := wz; b_W := Some (wW 3 O) |};
     {| b_m := 2; b_A := wA; b_b := wz; b_q := wz; b_W := None |} ].
 Proof. intros B [<-|[<-|[]]]; cbn; [|exact I]. intros j _ x y _ _. unfold wW. now rewrite Bool.andb_comm. Qed.
+(* outcome counts 3, 2, 2: the slices are [0,3), [3,5), [5,7) *)
+Example C12_ex_slices : slices [3; 2; 2]%nat = [(0, 3); (3, 5); (5, 7)]%nat /\ total [3; 2; 2]%nat = 7%nat.
+Proof. split; reflexivity. Qed.
 (* a configured fast relative-entropy object without weights is a valid starting state *)
 Example C12_ex_re_history : rstate_ok 2 {| r_w := None; r_ew := @None (@vec Qc_OF) |}.
 Proof. exact I. Qed.
